@@ -22,11 +22,17 @@ OPCODE_FUNCS = ('BasicLexer.scanner', 'BasicLexer.search_scanner', 'BasicLexer._
 THREAD_CFG_EXCLUDE = ('ind/',)          # user-supplied stateful post-lexer: excluded from the threaded part by the statement
 
 
-def _strategy(rng):
+def _strategy(rng, first_use=False):
+    if first_use and rng.random() < 0.6:
+        # every thread is inside the lazy initialisers at the same time: fine-grained interleaving is what finds a table published
+        # half-built (a window of a dozen lines deep inside an initialiser), coarse strategies run each initialiser to its end
+        return {'kind': 'random', 'p': rng.choice([0.05, 0.1, 0.15, 0.15, 0.3, 0.5])} if rng.random() < 0.7 else \
+            {'kind': 'burst', 'p': rng.choice([0.3, 0.5]), 'n': rng.choice([300, 1000, 3000]), 'p2': rng.choice([0.0, 0.01])}
     k = rng.random()
-    if k < 0.25:
+    if k < 0.3:
         # park a thread at its k-th arrival inside a lazy-initialisation branch and let the others go first (check-then-act windows)
-        return {'kind': 'window', 'targets': sorted({int(10 ** rng.uniform(0, 1.7)) for _ in range(rng.choice([1, 1, 2]))}), 'p2': rng.choice([0.0, 0.002, 0.01])}
+        return {'kind': 'window', 'targets': sorted({int(10 ** rng.uniform(0, 1.7)) for _ in range(rng.choice([1, 1, 2]))}), 'p2': rng.choice([0.0, 0.002, 0.01]),
+                'offset': rng.choice([0, 0, 0, 1, 2, 3, 5, 8, 13, 21, 34])}
     if k < 0.5:
         return {'kind': 'random', 'p': rng.choice([0.005, 0.02, 0.05, 0.15, 0.5])}
     if k < 0.75:
@@ -59,6 +65,9 @@ class C10(Check):
         self.lark_root = os.path.join(os.path.abspath(core.REPO), 'lark') + os.sep
         self.all_cfgs = [c for c in W.config_names()]
         self.thread_cfgs = [c for c in self.all_cfgs if not c.startswith(THREAD_CFG_EXCLUDE)]
+        # configurations whose lazily built lexers carry user-supplied (pure) callbacks or an embedded transformer: what a half-built
+        # table loses is only visible there, so first-use races visit them four times as often
+        self.hooked_cfgs = [c for c in self.thread_cfgs if W.ENTRIES[c.partition('/')[0]].callbacks or W.ENTRIES[c.partition('/')[0]].transformer]
         self.gen_inst = {}
         self.expected = {}
         self.pristine = {}
@@ -173,6 +182,7 @@ class C10(Check):
         plan = {'config': cfg, 'mode': mode, 'warm': None, 'sched_seed': rng.randrange(1 << 30), 'lalr_salt': rng.randrange(4)}
         if mode == 'threads':
             nt = rng.choice([2, 2, 3, 3, 4])
+            first_use = False
             if rng.random() < 0.015:
                 # "process start": the process-wide grammar-loading parser does not exist yet and 2-3 threads construct instances at once
                 nt = rng.choice([2, 3])
@@ -183,10 +193,14 @@ class C10(Check):
                     st2 = rng.choice(sorted(p2.options.start))
                     tasks.append([['construct', other, W.gen_text(rng, other, p2, st2), st2]])
                 plan['cold_start'] = True
-            elif rng.random() < 0.35:
+            elif rng.random() < 0.4:
                 # first-use race: every thread makes its first call at once on a fresh instance, same or different texts
+                if rng.random() < 0.35 and not cfg.startswith('gen:'):
+                    cfg = plan['config'] = rng.choice(self.hooked_cfgs)
+                    e = W.ENTRIES[cfg.partition('/')[0]]
                 op = self._gen_op(rng, cfg, mode)
                 tasks = [[op if rng.random() < 0.6 else self._gen_op(rng, cfg, mode)] for _ in range(nt)]
+                first_use = True
             else:
                 tasks = [[self._gen_op(rng, cfg, mode) for _ in range(rng.randint(1, 4))] for _ in range(nt)]
             if rng.random() < 0.3:
@@ -196,7 +210,7 @@ class C10(Check):
             plan['tasks'] = tasks
             plan['share_texts'] = rng.random() < 0.5
             plan['addr_reuse'] = rng.random() < 0.5
-            plan['strategy'] = _strategy(rng)
+            plan['strategy'] = _strategy(rng, first_use)
             plan['opcode'] = False                    # bytecode-granular pre-emption (f_trace_opcodes) segfaults CPython 3.12.1 under threads: kept off
             plan['interrupts'] = []
             if rng.random() < 0.2:
